@@ -591,10 +591,11 @@ int run()
         }
     }
     std::vector<Config> cfgs;
-    {   // A: tried collisions, test-before-evict, eviction back to new, deletion of the third party
+    // A: tried collisions, test-before-evict, eviction back to new, deletion of the third party
+    auto collisions = [&](const std::string& name, std::vector<UAddr> u, int depth) {
         Config c;
-        c.name = "collisions";
-        c.u = big ? std::vector<UAddr>{X, Y, Z, Z2} : std::vector<UAddr>{X, Y, Z};
+        c.name = name;
+        c.u = u;
         for (int a = 0; a < (int)c.u.size(); a++) {
             c.ops.push_back(Op{ADD, a, 0, 0, 0, -1});
             c.ops.push_back(Op{ADD, a, 0, -40 * 86400, 0, -1});
@@ -607,9 +608,11 @@ int run()
         c.ops.push_back(Op{RESOLVE});
         c.ops.push_back(Op{STC, 0, 0, 0, 0, 0});
         c.ops.push_back(Op{RELOAD});
-        c.depth = big ? 7 : 6;
+        c.depth = depth;
         cfgs.push_back(c);
-    }
+    };
+    collisions("collisions", {X, Y, Z}, big ? 7 : 6);
+    if (big) collisions("collisions4", {X, Y, Z, Z2}, 5);
     {   // B: all networks, multiple new-table references, services, terrible entries
         Config c;
         c.name = "networks";
